@@ -10,7 +10,7 @@ from registry import REGISTRY
 def run(chk):
     broken = chk.obligations(REGISTRY["C15"])
     runner.build_harness()
-    n = 4000 if chk.tier == "quick" else 80000
+    n = chk.size(4000, 80000)
     items = []
     kinds, layouts = {}, {}
     for i in range(n):
